@@ -90,6 +90,10 @@ pub enum ExCase {
     Reply { clauses: Vec<Vec<i8>>, assumptions: Vec<i8>, reply: Vec<ReplyLine>, crlf: bool, final_newline: bool },
     /// SE-ST on a long chain so that the model itself exceeds the pipe capacity.
     BigModel { n: u32, v_width: u8, io_order: u8, comments_before: u16, comment_len: u8 },
+    /// A satisfiable CNF whose DIMACS text is within a few KB of the 64 KiB pipe capacity (below and above),
+    /// solved under 0-700 assumptions, with a solver that prints up to 200 KB before it reads its input or
+    /// while reading it: the region where "small enough to write inline" decisions live.
+    NearPipe { delta: i16, n_assumptions: u16, banner_kib: u8, io_order: u8, wide: bool },
 }
 
 #[derive(Clone, Debug, PartialEq, Eq, Hash, Serialize, Deserialize)]
@@ -482,10 +486,13 @@ impl Prop for Exchange {
         let big_hi = tier.pick(40_000u32, 60_000u32);
         let big = (8_000u32..big_hi, 0u8..40, 0u8..4, prop_oneof![1 => Just(0u16), 2 => 400u16..3000], 20u8..200)
             .prop_map(|(n, v_width, io_order, comments_before, comment_len)| ExCase::BigModel { n, v_width, io_order, comments_before, comment_len });
+        let near = (-4_000i16..4_000, prop_oneof![1 => Just(0u16), 1 => 1u16..100, 3 => 100u16..700], prop_oneof![1 => Just(0u8), 1 => 1u8..60, 3 => 66u8..200], 0u8..4, any::<bool>())
+            .prop_map(|(delta, n_assumptions, banner_kib, io_order, wide)| ExCase::NearPipe { delta, n_assumptions, banner_kib, io_order, wide });
         prop_oneof![
             60 => query,
             38 => reply,
             2 => big,
+            5 => near,
         ]
         .boxed()
     }
@@ -607,6 +614,69 @@ impl Prop for Exchange {
                     RefReply::Unspecified(why) => {
                         rec.class(&format!("reply-unspecified: {}", why));
                     }
+                }
+                Ok(())
+            }
+            ExCase::NearPipe { delta, n_assumptions, banner_kib, io_order, wide } => {
+                rec.class("kind-instance-near-the-pipe-capacity");
+                rec.eval();
+                // variables 1..=v, clauses (i or i+1) and (i or -(i+2)): satisfied by the all-true assignment,
+                // so any set of positive assumptions is consistent
+                let v: usize = if *wide { 9_000 } else { 800 };
+                let target = (65_536i64 + *delta as i64).max(1_000) as usize;
+                let na = (*n_assumptions as usize).min(v - 2);
+                let mut clauses: Vec<Vec<isize>> = vec![];
+                // same layout as the DIMACS exchange: header, one line per clause, one unit line per assumption
+                let mut bytes = format!("p cnf {} {}\n", v, 0).len() + 6;
+                let unit_bytes: usize = (1..=na).map(|i| i.to_string().len() + 3).sum();
+                let mut i = 1usize;
+                while bytes + unit_bytes < target {
+                    let a = 1 + (i * 7) % (v - 2);
+                    let cl: Vec<isize> = if i % 2 == 0 { vec![a as isize, (a + 1) as isize] } else { vec![a as isize, -((a + 2) as isize)] };
+                    bytes += cl.iter().map(|l| l.to_string().len() + 1).sum::<usize>() + 2;
+                    clauses.push(cl);
+                    i += 1;
+                }
+                let banner_lines = *banner_kib as usize * 10;
+                fake.configure(json!({"io_order": io_name(*io_order), "comments_before": banner_lines, "comment_len": 101, "v_width": 0}));
+                rec.class(&format!("near-pipe-{}-assumptions-{}", if *delta < 0 { "below" } else { "above" }, if na == 0 { "none" } else if na < 100 { "<100" } else { "100+" }));
+                let fake2 = Arc::clone(&fake);
+                let cl2 = clauses.clone();
+                let got = run_watched(&fake, 20, move || {
+                    let r = guard(|| {
+                        let mut s = fake2.backend()();
+                        for c in &cl2 {
+                            s.add_clause(c.iter().map(|l| Literal::from(*l)).collect());
+                        }
+                        let al: Vec<Literal> = (1..=na).map(|x| Literal::from(x as isize)).collect();
+                        match s.solve_under_assumptions(&al) {
+                            SolvingResult::Satisfiable(m) => {
+                                let bad = (1..=na).find(|x| m.value_of(*x) != Some(true));
+                                json!({"r": "sat", "assumption_not_true": bad})
+                            }
+                            SolvingResult::Unsatisfiable => json!({"r": "unsat"}),
+                            SolvingResult::Unknown => json!({"r": "unknown"}),
+                        }
+                    });
+                    Ok(match r {
+                        Ok(v) => v,
+                        Err(p) => json!({"r": "abort", "msg": p}),
+                    })
+                })?;
+                let bad = fake.illformed();
+                if !bad.is_empty() {
+                    return Err(Failure::new("C16/near-pipe/ill-formed-dimacs", bad[0].chars().take(300).collect::<String>()));
+                }
+                let sent = fake.read_log().iter().filter(|e| e["event"] == "parsed").filter_map(|e| e["bytes"].as_u64()).next_back().unwrap_or(0);
+                rec.class(&format!("near-pipe-instance-bytes-{}", if sent <= 65_536 { "<=64KiB" } else { ">64KiB" }));
+                if got["r"] != "sat" || !got["assumption_not_true"].is_null() {
+                    return Err(Failure::new(
+                        "C16/near-pipe/healthy-solver-satisfiable-instance-not-reported-as-such",
+                        format!("{} ; instance of {} bytes, {} assumptions, banner {} KiB, io {}", got, sent, na, banner_kib, io_name(*io_order)),
+                    ));
+                }
+                if sent.abs_diff(65_536) < 4_000 && na >= 100 && *banner_kib > 64 && rec.nontrivial(&(delta, n_assumptions, banner_kib, io_order, wide)) {
+                    rec.sample(|| json!({"near_pipe": {"instance_bytes": sent, "assumptions": na, "banner_kib": banner_kib, "io_order": io_name(*io_order)}}));
                 }
                 Ok(())
             }
